@@ -225,6 +225,12 @@ def input_scenarios(run):
         pair("storage_fs", conf("s4a", storage="git", git=G), ["--input.storage", "fs"], conf("s4b", storage="fs", git=G))
         pair("git_ref", conf("s5a", storage="git", git=G), ["--input.git.ref", "other"], conf("s5b", storage="git", git=("repo", "other", "j", "jrn")))
         pair("git_commit", conf("s6a", storage="git", git=("repo", "other", "j", "jrn")), ["--input.git.commit", sha1], conf("s6b", storage="git", git=("repo", sha1, "j", "jrn")))
+        # git selector options WITHOUT --input.git.repository while the file's default storage is fs:
+        # the option selects git storage with the configured repository
+        pair("git_ref_with_fs_default", conf("s8a", storage="fs", git=G), ["--input.git.ref", "other"],
+             conf("s8b", storage="git", git=("repo", "other", "j", "jrn")))
+        pair("git_commit_with_fs_default", conf("s9a", storage="fs", git=("repo", "other", "j", "jrn")), ["--input.git.commit", sha1],
+             conf("s9b", storage="git", git=("repo", sha1, "j", "jrn")))
         pair("git_repository_suffix", conf("s7a", git=("nonexistent", "main", "x", "jrn")),
              ["--input.git.repository", os.path.join(root, "repo"), "--input.git.dir", "j", "--input.git.ref", "main"], conf("s7b", storage="git", git=G))
     finally:
